@@ -159,6 +159,19 @@ Theorem suspended_body_transparent : forall d s,
   (s = SNormal -> fst (step_js d (mkJS None false FinQuiet) s) = SNormal).
 Proof. exact Proofs.suspended_body_transparent. Qed.
 
+(* 8. host-built Error objects.  An Error object constructed by the embedder while nothing was executing
+      (Runtime.NewTypeError / NewGoError / New(Error) with an empty call stack) has an empty recorded stack: a script
+      throw statement (first throw and catch-and-rethrow alike) captures the stack at the throw site, whereas a Go
+      panic with that Value keeps the empty stack (exceptionFromValue re-captures only a nil stack).  The harness
+      checks the top frame (function and line) of such Exceptions against the throw site. *)
+Theorem hostbuilt_error_stack_at_throw : forall d v fin p st,
+  is_hostbuilt v = true ->
+  init_signal d (TJsThrow v) = SPanic (PVExc v (SAt d)) /\
+  (exc_of d p = Some (v, st) ->
+     fst (step_js d (mkJS (Some CRethrow) fin FinQuiet) (SPanic p)) = SPanic (PVExc v (SAt d))) /\
+  exc_of d (PVValue v) = Some (v, SEmpty).
+Proof. exact Proofs.hostbuilt_error_stack_at_throw. Qed.
+
 Print Assumptions identity_preserved.
 Print Assumptions identity_preserved_host.
 Print Assumptions errobj_stack_preserved.
@@ -175,3 +188,4 @@ Print Assumptions plain_error_panic_propagates.
 Print Assumptions rethrow_identity.
 Print Assumptions job_exception_contained.
 Print Assumptions suspended_body_transparent.
+Print Assumptions hostbuilt_error_stack_at_throw.
